@@ -1029,28 +1029,38 @@ package stack
 //@   loop 0: invariant forall g, j :: 0 <= g && g <= rangeindex && 0 <= j && j < len(s.Goroutines[g].Stack.Calls) ==> Located(&s.Goroutines[g].Stack.Calls[j], s.RemoteGOROOT, s.LocalGOROOT, s.LocalGomods, s.RemoteGOPATHs)
 //@   loop 0: decreases len(s.Goroutines) - rangeindex
 
-// ---- html.go: hand-built URL / class helpers (C03: memory safety only) -------------
+// ---- html.go: hand-built URL / class helpers (C03 memory safety; C17 fixed schemes) ---
+// The values the template trusts (template.URL, template.HTML) are built here by
+// hand. Proved: each is empty or starts with a fixed scheme and host chosen by
+// the code, and - outside the Sprintf-built github.com links - the part taken
+// from the dump is the result of an escaping function of the standard library.
 //@ func splitHost
 //@   modifies nothing
 //@ func splitTag
 //@   modifies nothing
 //@ func escape
 //@   modifies nothing
+//@   ensures [escapeIsPathEscape C17] result == escapedPath(s)
 //@ func symbol
 //@   requires f != nil
 //@   modifies nothing
+//@   ensures [symbolIsQueryEscaped C17] exists x string :: result == queryEsc(x)
 //@ func getSrcBranchURL
 //@   requires c != nil
 //@   modifies nothing
+//@   ensures [srcURLHasFixedScheme C17] result0 == "" || (exists x string :: result0 == "file:///" + escapedPath(x)) || (len(result0) >= 19 && forall k :: 0 <= k && k < 19 ==> result0[k] == "https://github.com/"[k])
 //@ func srcURL
 //@   requires c != nil
 //@   modifies nothing
+//@   ensures [srcURLHasFixedScheme2 C17] result == "" || (exists x string :: result == "file:///" + escapedPath(x)) || (len(result) >= 19 && forall k :: 0 <= k && k < 19 ==> result[k] == "https://github.com/"[k])
 //@ func pkgURL
 //@   requires c != nil
 //@   modifies nothing
+//@   ensures [pkgURLHasFixedScheme C17] result == "" || (exists x string, z string :: result == "https://golang.org/pkg/" + escapedPath(x) || result == "https://godoc.org/" + escapedPath(x) || result == "https://pkg.go.dev/" + escapedPath(x) || result == "https://golang.org/pkg/" + escapedPath(x) + "#" + queryEsc(z) || result == "https://godoc.org/" + escapedPath(x) + "#" + queryEsc(z) || result == "https://pkg.go.dev/" + escapedPath(x) + "#" + queryEsc(z))
 //@ func funcClass
 //@   requires c != nil
 //@   modifies nothing
+//@   ensures [classIsFixedOrEscaped C17] result == "FuncMain Exported" || (exists x string :: result == "Func" + htmlEsc(x))
 //@ func minus
 //@   modifies nothing
 
